@@ -36,6 +36,7 @@ type call struct {
 	nrecvd   atomic.Int32  // messages the handler has received so far
 	entered  atomic.Bool   // the handler has started (over gRPC a call cancelled at once may never reach it)
 	parked   atomic.Bool   // the handler has reached a W or G op
+	sending  atomic.Bool   // the handler is inside SendMsg
 	watch    bool          // start a helper goroutine tied to the handler's context right before returning
 	released chan struct{} // closed by that helper when the handler's context has ended
 
@@ -155,11 +156,13 @@ func (c *call) run(io_ sio) error {
 		case 'M':
 			var m proto.Message
 			var err error
+			c.sending.Store(true)
 			if handlerSendsWide(c.shape, c.pass) {
 				err = io_.sendAny(wideMsg(c.shape == "sstream", op.N))
 			} else {
 				m, err = io_.send(op.N)
 			}
+			c.sending.Store(false)
 			if err != nil {
 				return c.abort(err)
 			}
